@@ -105,10 +105,10 @@ CallsCore == <<
     C("bool"), [op |-> "bits", n |-> 3], C("u8"), C("word"), C("int"), C("char"), C("bytes"), C("utf8"), C("string"),
     C("filler"), [op |-> "list", of |-> "bool"], [op |-> "list", of |-> "word"] >>
 
-\* a top call or an unconstrained outcome ends the sequence (nothing after it is determined)
+\* a top call ends the sequence (it runs on its own decoder); so does an "any" outcome (mode "free")
 MCMoreCalls(h) ==
     /\ Len(h) < MaxCalls
-    /\ h # <<>> => (h[Len(h)].c.op # "top" /\ h[Len(h)].out # "any")
+    /\ h # <<>> => h[Len(h)].c.op # "top"
 
 \* ---- self-checks of the number layer against TLC arithmetic (asserted by FlatLaws.tla; evaluating them in an
 \* ASSUME of this module makes TLC -coverage runs crawl)
